@@ -9,10 +9,21 @@ RULE = ('all chains of sub_context() calls up to length 2 (3 thorough) over 17 r
         'from 3 base states, x all strings up to 2 (3) symbols over an alphabet containing every configured delimiter, '
         'plus random chains to length 8 with random strings; model vs real: cached tables + full token read; '
         'oracle: derived vs ParsingState(**derived.get_fields()) and ancestors unchanged. Non-trivial: the chain '
-        'changes at least one field that a cached table depends on.')
+        'changes at least one field that a cached table depends on. Stream `delta` (wire entry 1703): the public '
+        'parsing-state delta objects - ParsingStateDelta(set_attributes=one of the 23 keyword sets or {}), '
+        'ParsingStateDeltaEnterMathMode(delimiter None / $ / \\(), ParsingStateDeltaLeaveMathMode(), '
+        'ParsingStateDeltaChained (length 0..4, None entries, nesting depth <= 3) - applied with '
+        'get_updated_parsing_state(state, LatexWalker(s)) (default event handler) to each of the 3 base states: every '
+        'new atomic delta x all strings up to 2 symbols, all 2-entry chains over 9 representative entries, and random '
+        'trees with random strings; model (apply_delta) vs real: cached tables + full token read; oracle: result vs '
+        'ParsingState(**result.get_fields()), the state the delta was applied to and every intermediate state of a '
+        'chain unchanged, a chain acts as the step-by-step application of its entries, the delta object unchanged.')
 EXHAUSTIVE = {'quick': True, 'thorough': True}
 ASSUMPTIONS = ['parent immutability is by construction in the model; on the real objects it is checked by snapshotting '
-               'get_fields() and the seven cached tables of every ancestor before/after']
+               'get_fields() and the seven cached tables of every ancestor before/after',
+               'delta objects: walker events (enter / leave math mode) are answered by the DEFAULT '
+               'LatexWalkerParsingStateEventHandler of a plain LatexWalker; a user-supplied event handler and '
+               'ParsingStateDeltaReplaceParsingState (which installs an arbitrary state object) are outside the model']
 PARTIAL = []
 REFUTED = []
 CASE_TIMEOUT = 10.0
@@ -62,8 +73,110 @@ def _case(bname, base, chain, s, tol):
             'nt': any(k in CACHE_KEYS for kw in chain for k in kw) and len(s) > 0}
 
 
+# ---- stream `delta`: the public parsing-state delta objects -------------------------------------------------------
+ENTER_DELIMS = [None, '$', '\\(']
+
+
+def _d_set(kw):
+    return {'t': 'set', 'kw': kw}
+
+
+def _d_enter(d):
+    return {'t': 'enter', 'd': d}
+
+
+D_LEAVE = {'t': 'leave'}
+
+
+def _d_chain(l):
+    return {'t': 'chain', 'l': l}
+
+
+def _delta_keys(d):
+    if d is None:
+        return set()
+    if d['t'] == 'set':
+        return set(d['kw'])
+    if d['t'] == 'chain':
+        return set().union(*[_delta_keys(x) for x in d['l']]) if d['l'] else set()
+    return {'in_math_mode', 'math_mode_delimiter'}
+
+
+def _delta_depth(d):
+    if d is None or d['t'] != 'chain':
+        return 0
+    return 1 + max([_delta_depth(x) for x in d['l']] + [0])
+
+
+def _delta_size(d):
+    if d is None or d['t'] != 'chain':
+        return 1
+    return 1 + sum(_delta_size(x) for x in d['l'])
+
+
+def _norm_delta(d):
+    """a description read back from JSON (pairs have become lists)"""
+    if d is None:
+        return None
+    if d['t'] == 'set':
+        return _d_set({k: ([tuple(p) for p in v] if k.startswith('latex_') else v) for k, v in d['kw'].items()})
+    if d['t'] == 'chain':
+        return _d_chain([_norm_delta(x) for x in d['l']])
+    return dict(d)
+
+
+def _case_delta(bname, base, delta, s, tol):
+    return {'wire': T.w_case_delta(base, delta, s, tol, True, [6], entry=1703),
+            'desc': {'stream': 'delta', 'base': bname, 'delta': delta, 's': s, 'tolerant': tol},
+            'nt': bool(_delta_keys(delta) & CACHE_KEYS) and len(s) > 0}
+
+
+def _rand_delta(rnd, depth, top=False):
+    if depth > 0 and rnd.random() < (0.75 if top else 0.3):
+        return _d_chain([None if rnd.random() < 0.15 else _rand_delta(rnd, depth - 1)
+                         for _ in range(rnd.randint(0, 4))])
+    r = rnd.random()
+    if r < 0.5:
+        return _d_set({} if rnd.random() < 0.06 else rnd.choice(UPDATES))
+    if r < 0.8:
+        return _d_enter(rnd.choice(ENTER_DELIMS))
+    return D_LEAVE
+
+
+def _gen_delta_cases(rnd, tier, strings):
+    cases = []
+    # every atomic delta that is not a plain keyword set, on every string
+    atoms = [_d_set({})] + [_d_enter(x) for x in ENTER_DELIMS] + [D_LEAVE, _d_chain([]), _d_chain([None])]
+    for bname, base in BASES:
+        for a in atoms:
+            for s in strings:
+                cases.append(_case_delta(bname, base, a, s, len(s) % 2 == 0))
+        # every keyword set as a ParsingStateDelta, alone and between an enter / leave pair
+        for kw in UPDATES:
+            for s in rnd.sample(strings, 8):
+                cases.append(_case_delta(bname, base, _d_set(kw), s, len(s) % 2 == 1))
+                cases.append(_case_delta(bname, base, _d_chain([_d_enter('$'), _d_chain([None, _d_set(kw)]), D_LEAVE]),
+                                         s, len(s) % 2 == 0))
+    # all two-entry chains over representative entries
+    reps = [_d_enter(None), _d_enter('$'), _d_enter('\\('), D_LEAVE, None, _d_set(UPDATES[18]), _d_set(UPDATES[10]),
+            _d_set(UPDATES[4]), _d_chain([_d_enter('$'), _d_set(UPDATES[12])])]
+    for bname, base in BASES:
+        for a in reps:
+            for b in reps:
+                for s in rnd.sample(strings, 12 if tier == 'quick' else 40):
+                    cases.append(_case_delta(bname, base, _d_chain([a, b]), s, rnd.random() < 0.5))
+    for _ in range(3000 if tier == 'quick' else 30000):
+        bname, base = rnd.choice(BASES)
+        delta = _rand_delta(rnd, 3, top=True)
+        s = ''.join(rnd.choice(ALPHA) for _ in range(rnd.randint(1, 12)))
+        cases.append(_case_delta(bname, base, delta, s, rnd.random() < 0.5))
+    return cases
+
+
 def case_from_desc(d):
     base = dict(BASES)[d['base']]
+    if d.get('stream') == 'delta':
+        return _case_delta(d['base'], base, _norm_delta(d['delta']), d['s'], d['tolerant'])
     chain = [{k: ([tuple(p) for p in v] if k.startswith('latex_') else v) for k, v in kw.items()} for kw in d['chain']]
     return _case(d['base'], base, chain, d['s'], d['tolerant'])
 
@@ -91,12 +204,17 @@ def gen_cases(seed, tier):
         chain = [rnd.choice(UPDATES) for _ in range(rnd.randint(1, 8))]
         s = ''.join(rnd.choice(ALPHA) for _ in range(rnd.randint(1, 12)))
         cases.append(_case(bname, base, chain, s, rnd.random() < 0.5))
+    # the delta stream draws from its own generator: the streams above are what they were
+    cases += _gen_delta_cases(random.Random(seed * 7919 + 17), tier, strings)
     return cases
 
 
 def impl(c):
     d = c['desc']
     base = dict(BASES)[d['base']]
+    if d.get('stream') == 'delta':
+        ps, _, _, _ = T.apply_delta(base, d['delta'], d['s'])
+        return T.run_script(ps, d['s'], d['tolerant'], [6], True)
     ps, _ = T.make_state(base, d['chain'], d['s'])
     return T.run_script(ps, d['s'], d['tolerant'], [6], True)
 
@@ -107,9 +225,90 @@ def _snapshot(ps):
             T.dump_caches(ps))
 
 
+def _fresh_mismatch(ps, s, PS):
+    """None, or how ps differs from the state constructed directly with its field values"""
+    fresh = PS(**ps.get_fields())
+    ff, df = fresh.get_fields(), ps.get_fields()
+    for k in df:
+        if k not in ('s', 'latex_context') and ff.get(k) != df[k]:
+            return ('derived-fields-differ-from-fresh', {'field': k, 'derived': repr(df[k]), 'fresh': repr(ff.get(k))})
+    if ff.get('latex_context') is not df.get('latex_context'):
+        return ('derived-fields-differ-from-fresh', {'field': 'latex_context'})
+    if T.dump_caches(ps) != T.dump_caches(fresh):
+        return ('derived-caches-differ-from-fresh', {'derived': T.dump_caches(ps), 'fresh': T.dump_caches(fresh)})
+    for tol in (False, True):
+        a = T.run_script(ps, s, tol, [6, 0, 1, 1], False)
+        b = T.run_script(fresh, s, tol, [6, 0, 1, 1], False)
+        if a != b:
+            return ('derived-tokens-differ-from-fresh', {'derived': a, 'fresh': b, 'tolerant': tol})
+    return None
+
+
+def _oracle_delta(c):
+    from pylatexenc.latexnodes import ParsingState as PS, ParsingStateDeltaChained
+    d = c['desc']
+    base_fields = dict(BASES)[d['base']]
+    s = d['s']
+    from pylatexenc.latexwalker import LatexWalker
+    base = PS(s=s, **T._py_kwargs(base_fields, s))
+    lw = LatexWalker(s)
+    delta = T.make_delta(d['delta'], s)
+    snap0 = _snapshot(base)          # BEFORE the delta sees the state
+    rep0 = repr(delta)
+    res = delta.get_updated_parsing_state(base, lw)
+    if _snapshot(base) != snap0:
+        return ('delta-parent-altered', {'delta': repr(delta), 'before': snap0[0], 'after': _snapshot(base)[0]})
+    # the intermediate states of a top-level chain, obtained through the prefixes of the chain and kept alive
+    held = [(base, snap0)]
+    entries = delta.parsing_state_deltas if d['delta']['t'] == 'chain' else None
+    if entries is not None:
+        for k in range(1, len(entries) + 1):
+            pk = ParsingStateDeltaChained(entries[:k]).get_updated_parsing_state(base, lw)
+            held.append((pk, _snapshot(pk)))
+    # apply the delta again, and once more to the result (the result becomes a parent itself)
+    res2 = delta.get_updated_parsing_state(base, lw)
+    again = delta.get_updated_parsing_state(res, lw)
+    for a, snap in held:
+        if _snapshot(a) != snap:
+            return ('delta-parent-altered', {'delta': repr(delta)})
+    if repr(delta) != rep0:
+        return ('delta-object-altered', {'before': rep0, 'after': repr(delta)})
+    if _snapshot(res2) != _snapshot(res):
+        return ('delta-not-a-function-of-the-state', {'first': _snapshot(res)[0], 'second': _snapshot(res2)[0]})
+    # the state obtained through the delta vs the state constructed directly with the same field values
+    bad = _fresh_mismatch(res, s, PS)
+    if bad:
+        return bad
+    bad = _fresh_mismatch(again, s, PS)
+    if bad:
+        return (bad[0], dict(bad[1], applied='twice'))
+    # a chain acts as the step-by-step application of its entries (None entries skipped)
+    if entries is not None:
+        ps = base
+        for e in entries:
+            if e is not None:
+                ps = e.get_updated_parsing_state(ps, lw)
+        if _snapshot(ps) != _snapshot(res):
+            return ('delta-chain-is-not-the-fold-of-its-entries', {'chain': _snapshot(res)[0], 'fold': _snapshot(ps)[0]})
+        if held[-1][1] != _snapshot(res):
+            return ('delta-chain-is-not-the-fold-of-its-entries', {'chain': _snapshot(res)[0], 'prefixes': held[-1][1][0]})
+    # the requested values of a walker event are in effect
+    t = d['delta']['t']
+    f = res.get_fields()
+    if t == 'enter' and (f['in_math_mode'] is not True or f['math_mode_delimiter'] != d['delta']['d']):
+        return ('update-not-applied', {'event': 'enter_math_mode', 'in_math_mode': f['in_math_mode'],
+                                       'math_mode_delimiter': repr(f['math_mode_delimiter'])})
+    if t == 'leave' and (f['in_math_mode'] is not False or f['math_mode_delimiter'] is not None):
+        return ('update-not-applied', {'event': 'leave_math_mode', 'in_math_mode': f['in_math_mode'],
+                                       'math_mode_delimiter': repr(f['math_mode_delimiter'])})
+    return None
+
+
 def oracle(c):
     from pylatexenc.latexnodes import ParsingState
     d = c['desc']
+    if d.get('stream') == 'delta':
+        return _oracle_delta(c)
     base = dict(BASES)[d['base']]
     s = d['s']
     from pylatexenc.latexnodes import ParsingState as PS
@@ -167,6 +366,11 @@ def oracle(c):
 
 
 def distribution(cases, impl_out):
-    return {'chain_length': dict(collections.Counter(len(c['desc']['chain']) for c in cases)),
+    dl = [c for c in cases if c['desc'].get('stream') == 'delta']
+    return {'chain_length': dict(collections.Counter(len(c['desc']['chain']) for c in cases if 'chain' in c['desc'])),
             'bases': dict(collections.Counter(c['desc']['base'] for c in cases)),
+            'delta_cases': len(dl),
+            'delta_kind': dict(collections.Counter(c['desc']['delta']['t'] for c in dl)),
+            'delta_nesting_depth': dict(collections.Counter(_delta_depth(c['desc']['delta']) for c in dl)),
+            'delta_tree_size': dict(collections.Counter(min(_delta_size(c['desc']['delta']), 20) for c in dl)),
             'cases_with_token_error': sum(1 for o in impl_out if isinstance(o, str) and ' ERR(' in o)}
